@@ -49,3 +49,11 @@ Theorem C17_dbc_roundtrip :
     dbc_read sch (dbc_write sch arrays recs) = Some recs.
 Proof. exact dbc_roundtrip. Qed.
 Print Assumptions C17_dbc_roundtrip.
+
+(* the key table as the reader builds it (stable insertion sort of the file's (key, index) pairs):
+   every key of the file is found by the binary search, and whatever is found is an entry of the file *)
+Theorem C17_built_table_lookup : forall t key,
+    (forall i, In (key, i) t -> exists j, lookup_sorted (sort_keys t) key = Some j /\ In (key, j) t) /\
+    (forall j, lookup_sorted (sort_keys t) key = Some j -> In (key, j) t).
+Proof. exact built_table_lookup. Qed.
+Print Assumptions C17_built_table_lookup.
